@@ -98,7 +98,7 @@ def key_agreement(ctx: Ctx) -> None:
     ctx.ob("find_var requires list-ness of the value to agree with the field (list_element or tokens)", a.count(A("_=_.list_elementor_.tokens")) >= 2 and a.count(A("if_==_:;return_")) >= 2, at=fv, construct="list agreement",
            msg="a scalar could be bound to a list field or vice versa")
     bd = ctx.repo.func(f"{PAR}:DictDecoder.bind_dataclass")
-    ctx.ob("bind_dataclass unwraps value[var.local_name] for wrapped fields before binding", A("if_.wrapper:;_=_[_.local_name]") in asrc(bd), at=bd, construct="decoder unwrap", msg="wrapped values bound with their wrapper dict")
+    ctx.ob("bind_dataclass unwraps value[var.local_name] for wrapped fields before binding", A("if_.wrapperand_==_.wrapper:;_=_[_.local_name]") in asrc(bd), at=bd, construct="decoder unwrap", msg="wrapped values bound with their wrapper dict")
     ctx.ob("bind_dataclass looks keys up in meta.get_all_vars()", A("_=_.get_all_vars()") in asrc(bd), at=bd, construct="decoder vars", msg="decoder consults another var list than the encoder")
 
 
